@@ -151,6 +151,69 @@ def c_split(ctx, case):
             ctx.fail("addition mutated an operand", "operand-mutated")
 
 
+def g_reduce(draw):
+    c = g_formula(draw)
+    n = c["X"].shape[0]
+    c["perm"] = gen.permutation(draw, n)
+    c["blocks"] = gen.composition(draw, n, max_parts=gen.choice(draw, [None, 6, 12]))
+    c["trainer"] = gen.choice(draw, ["ml", "ml", "map"])
+    c["order_seed"], c["isolate"] = gen.integer(draw, 0, 999), gen.boolean(draw)
+    return c
+
+
+@REG.obligation("blocks_reach_the_m_step", g_reduce, quick=300, thorough=6000)
+def c_reduce(ctx, case):
+    """The reduction in front of the M-step (module-level m_step given the per-block statistics, and
+    GMMMachine.fit on a Dask array chunked in the same blocks) consumes the sum over ALL blocks: same model and
+    same reported average log-likelihood as the M-step on the whole-set statistics."""
+    import bob.learn.em.gmm as G
+    from bob.learn.em import GMMMachine
+
+    from vf import sched
+
+    p, X = case["p"], case["X"]
+    blocks = _blocks(case["perm"], case["blocks"])
+    kw = dict(update_means=True, update_variances=True, update_weights=True, max_fitting_steps=1,
+              convergence_threshold=None)
+
+    def fresh():
+        if case["trainer"] == "map":
+            return GMMMachine(int(p["C"]), trainer="map", ubm=sut.make_gmm(p), map_relevance_factor=4.0, **kw)
+        return sut.make_gmm(p, **kw)
+
+    g0 = fresh()
+    want = ref.gmm_stats(X, p["weights"], p["means"], p["variances"])
+    if (want["n"] < 1e-6).any():
+        ctx.discard("starved component (variance update ill-conditioned)")
+    ctx.note(len(blocks) >= 3 and p["C"] >= 2, "blocks=%s" % (len(blocks) if len(blocks) < 9 else ">=9"),
+             "odd" if len(blocks) % 2 else "even", "trainer:" + case["trainer"])
+    whole = g0.acc_stats(X)
+    parts = [g0.acc_stats(X[b]) for b in blocks]
+    a, b_ = fresh(), fresh()
+    _, avg_whole = G.m_step([copy.deepcopy(whole)], a)
+    _, avg_parts = G.m_step([copy.deepcopy(s) for s in parts], b_)
+    sc = float(np.abs(X).max()) + 1e-300
+    tol_v = 64 * X.shape[0] * 2.220446049250313e-16 * sc * sc
+
+    def same(m, what):
+        pw, pm, pv = sut.params_of(m)
+        qw, qm, qv = sut.params_of(a)
+        ctx.close(pw, qw, what + ": weights", rtol=1e-9, atol=1e-12)
+        ctx.close(pm, qm, what + ": means", rtol=1e-9, atol=1e-12 * sc)
+        ctx.close(pv, qv, what + ": variances", rtol=1e-8, atol=tol_v)
+
+    same(b_, "m_step(per-block statistics) vs m_step(whole-set statistics)")
+    ctx.close(avg_parts, avg_whole, "average log-likelihood reported by m_step(per-block statistics)", rtol=1e-10,
+              atol=1e-9)
+    ctx.close(avg_whole, want["log_likelihood"] / X.shape[0], "average log-likelihood vs reference", rtol=1e-9, atol=1e-9)
+    # the same blocks as the chunks of a Dask array (consecutive rows of the permuted data), one training step
+    Xp = X[np.concatenate([np.asarray(b, dtype=int) for b in blocks])]
+    d = fresh()
+    with sched.owned("random", int(case["order_seed"]), bool(case["isolate"])):
+        d.fit(sut.dask_rows(Xp, [len(b) for b in blocks]))
+    same(d, "fit(1 step) on a Dask array with these blocks vs m_step(whole-set statistics)")
+
+
 def g_all(draw):
     C, F = gen.dims(draw, maxC=3, maxF=3)
     p = gen.gmm_params(draw, C, F)
